@@ -411,11 +411,47 @@ preserving('FL1-ok-power-sizes', ['C05'], edit=[('python/numqi/entangle/symext.p
 preserving('FL1-ok-swapaxes', ['C05'], edit=[('python/numqi/entangle/symext.py',
          "    rho = rho.reshape(-1,dimA,dimB,dimA,dimB).transpose(0,1,3,2,4).reshape(-1,dimA*dimA,dimB*dimB)",
          "    rho = rho.reshape(-1,dimA,dimB,dimA,dimB).swapaxes(2,3).reshape(-1,dimA*dimA,dimB*dimB)")])
+breaking('TR1-seed-C03-r8m1', {'C03': 'TR1', 'C11': 'TR1'}, patch='/verif/selftest/patches/seed_C03_r8m1.diff')
+breaking('ORD1-seed-C03-r8m2', {'C03': 'ORD1'}, patch='/verif/selftest/patches/seed_C03_r8m2.diff')
+breaking('PSD1-seed-C05-r8m1', {'C05': 'PSD1'}, patch='/verif/selftest/patches/seed_C05_r8m1.diff')
+breaking('F7-seed-C05-r8m2', {'C13': 'F7'}, patch='/verif/selftest/patches/seed_C05_r8m2.diff')
+breaking('RND1-seed-C08-r8m1', {'C08': 'RND1'}, patch='/verif/selftest/patches/seed_C08_r8m1.diff')
+breaking('FW2-seed-C08-r8m2', {'C08': 'FW2', 'C07': 'FW2'}, patch='/verif/selftest/patches/seed_C08_r8m2.diff')
+breaking('EVH1-seed-C12-r8m1', {'C12': 'EVH1'}, patch='/verif/selftest/patches/seed_C12_r8m1.diff')
+breaking('UV1-seed-C12-r8m2', {'C12': 'UV1'}, patch='/verif/selftest/patches/seed_C12_r8m2.diff')
+breaking('G1-seed-C12-r8m3', {'C16': 'G1'}, patch='/verif/selftest/patches/seed_C12_r8m3.diff')
+breaking('PU1-seed-C13-r8m1', {'C13': 'PU1'}, patch='/verif/selftest/patches/seed_C13_r8m1.diff')
+breaking('CAST1-seed-C13-r8m2', {'C13': 'CAST1', 'C04': 'CAST1'}, patch='/verif/selftest/patches/seed_C13_r8m2.diff')
+breaking('F2-seed-C13-r8m3', {'C13': 'F2'}, patch='/verif/selftest/patches/seed_C13_r8m3.diff')
+breaking('PT1-seed-C17-r8m3', {'C17': 'PT1'}, patch='/verif/selftest/patches/seed_C17_r8m3.diff')
+breaking('RD2-seed-C18-r8m1', {'C18': 'RD2'}, patch='/verif/selftest/patches/seed_C18_r8m1.diff')
+breaking('DT14-seed-C18-r8m2', {'C18': 'DT14'}, patch='/verif/selftest/patches/seed_C18_r8m2.diff')
+breaking('TD1-seed-C18-r8m3', {'C18': 'TD1'}, patch='/verif/selftest/patches/seed_C18_r8m3.diff')
+breaking('EVS1-seed-C20-r8m1', {'C20': 'EVS1'}, patch='/verif/selftest/patches/seed_C20_r8m1.diff')
+breaking('G5-seed-C20-r8m2', {'C20': 'G5'}, patch='/verif/selftest/patches/seed_C20_r8m2.diff')
+breaking('DROP1-seed-C20-r8m3', {'C20': 'DROP1'}, patch='/verif/selftest/patches/seed_C20_r8m3.diff')
 breaking('GI1-seed-C11-r7m1', {'C11': 'GI1'}, patch='/verif/selftest/patches/seed_C11_r7m1.diff')
 preserving('GI1-ok-indexed-by-position', ['C11'], edit=[('python/numqi/sim/_torch_utils.py', "                else: #custom measure\n                    info = dict(kind=kind, name=name, index=index, gate=gate)",
             "                else: #custom measure\n                    info = dict(kind=kind, name=name, index=index, gate=gate_index_list[ind0][0])")])
 preserving('SP5-ok-crossed-bitand', ['C09'], edit=[('python/numqi/group/spf2.py', "    ret = (np.dot(v0[...,:N0], v1[N0:]) + np.dot(v0[...,N0:], v1[:N0]))%2",
             "    ret = (np.dot(v0[...,:N0], v1[N0:]) + np.dot(v0[...,N0:], v1[:N0]))%2\n    _chk = (v0[...,:N0] & v1[N0:])")])
+preserving('UV1-ok-named-amplitudes', ['C12'], edit=[('python/numqi/channel/_internal.py',
+           "    ret = np.array([\n        [[1,0], [0,np.sqrt(1-noise_rate)]],\n        [[0,np.sqrt(noise_rate)], [0,0]],\n    ])",
+           "    tmp0 = np.sqrt(1-noise_rate)\n    tmp1 = np.sqrt(noise_rate)\n    ret = np.array([\n        [[1,0], [0,tmp0]],\n        [[0,tmp1], [0,0]],\n    ])")])
+preserving('EVH1-ok-conj-first', ['C12'], edit=[('python/numqi/utils.py',
+           "            tmp1 = (tmp0.reshape(-1,1) * EVC0.T.conj()) @ rho1 @ (EVC0 * tmp0)",
+           "            tmp1 = (tmp0.reshape(-1,1) * EVC0.conj().T) @ rho1 @ (EVC0 * tmp0)")])
+preserving('RND1-ok-int-of-round', ['C08'], edit=[('python/numqi/gate/_pauli.py',
+           "        tmp0 = round(np.angle(np0.item())*2/np.pi) % 4",
+           "        tmp0 = int(round(np.angle(np0.item())*2/np.pi)) % 4")])
+preserving('TD1-ok-isqrt-plus-one', ['C18'], edit=[('python/numqi/entangle/upb.py',
+           "range(3, int(math.sqrt(n))+1, 2)", "range(3, math.isqrt(n)+1, 2)")])
+preserving('DT14-ok-float-cast', ['C18'], edit=[('python/numqi/state/_internal.py',
+           "    ret = np.eye(8, dtype=np.float64)*(b/(7*b+1))",
+           "    ret = np.diag(np.full(8, float(b)))*(1/(7*b+1))")])
+preserving('FW2-ok-option-forwarded', ['C08'], edit=[('python/numqi/gate/_pauli.py',
+           "        ret = _pauli_index_int_to_F2(index, num_qubit, with_sign)",
+           "        ret = _pauli_index_int_to_F2(int(index), num_qubit, with_sign=with_sign)")])
 breaking('refix-get_gme_2qubit', {'C13': 'F2', 'C05': 'F2'}, patch_reverse='fix_78cd862.diff')
 
 # ---- behaviour-preserving edits for the second half of the round-3 rules
